@@ -14,7 +14,11 @@ type Geom struct {
 	BS  int    `json:"bs"`  // block edge in voxels
 	Org [3]int `json:"org"` // block coordinate of the first block
 	Dim [3]int `json:"dim"` // number of blocks per axis
+	Lo  bool   `json:"lo,omitempty"` // instance with MaxDownresLevel 1; scale 1 is observed too
 }
+
+// Half is the geometry of the scale-1 volume (same blocks, half the edge).
+func (g Geom) Half() Geom { return Geom{BS: g.BS / 2, Org: g.Org, Dim: g.Dim} }
 
 func (g Geom) N() [3]int   { return [3]int{g.Dim[0] * g.BS, g.Dim[1] * g.BS, g.Dim[2] * g.BS} }
 func (g Geom) NVox() int   { n := g.N(); return n[0] * n[1] * n[2] }
